@@ -141,17 +141,124 @@ def int_parse_ops(rng, fs, scale=1, types=None, rads=None):
     return ops
 
 
+U64_STEP = {2: 64, 3: 40, 4: 32, 5: 27, 6: 24, 7: 22, 8: 21, 9: 20, 10: 19, 11: 18, 12: 17, 13: 17, 14: 16, 15: 16,
+            16: 16, 17: 15, 18: 15, 19: 15, 20: 14, 21: 14, 22: 14, 23: 14, 24: 13, 25: 13, 26: 13, 27: 13, 28: 13,
+            29: 13, 30: 13, 31: 12, 32: 12, 33: 12, 34: 12, 35: 12, 36: 12}
+
+
+def write_values(ty, r, rng, extra=6):
+    """values of type ty that stress the writer in radix r: digit-count boundaries of r, of 2 and of 10
+    (fast_log2 / jeaiii thresholds), u64_step chunk boundaries for 128-bit values, random values per bit length"""
+    lo, hi = int_range(ty)
+    bits = INT_TYPES[ty][0]
+    vals = {0, 1, 2, hi, hi - 1, lo, lo + 1, hi // 2, hi // 2 + 1}
+    for base in {r, 2, 10}:
+        p = 1
+        while p <= hi * base:
+            for d in (-2, -1, 0, 1):
+                vals.add(p + d)
+                vals.add(-(p + d))
+            p *= base
+    # digit pairs / quadruples with inner zeros and maximal digits
+    for k in range(1, 40):
+        vals.add(r ** k * (r - 1))
+        vals.add(r ** k + r - 1)
+        vals.add((r ** k - 1) * r ** (k // 2 + 1))
+        vals.add(r ** (2 * k) + 1)
+    if bits == 128:
+        st = r ** U64_STEP[r]
+        for j in (1, 2, 3):
+            for d in (-1, 0, 1):
+                vals.add(st ** j + d)
+                vals.add((r - 1) * st ** j + d)
+                vals.add(2 ** 64 * st ** (j - 1) + d)
+                vals.add((2 ** 64 - 1) * st ** j + d)
+                vals.add((2 ** 64) * st ** j + d)
+        for k in (10, 20, 30):
+            for d in (-1, 0, 1):
+                vals.add(10 ** k + d)
+                vals.add((2 ** 32 - 1) * 10 ** k + d)
+                vals.add(5 * 10 ** k + d)
+    for b in range(1, bits + 1):
+        for _ in range(max(1, extra // 3)):
+            vals.add(rng.getrandbits(b))
+            vals.add(-rng.getrandbits(b))
+    for _ in range(extra):
+        vals.add(rng.randint(lo, hi))
+    return sorted(v for v in vals if lo <= v <= hi)
+
+
 def int_write_ops(rng, fs, scale=1, types=None, rads=None):
     ops = []
+    seen = set()
     for r in (rads or radices(fs)):
         f = fmt_hex(pack(r))
         for ty in (types or INT_TYPES):
+            for v in write_values(ty, r, rng, extra=6 * scale):
+                op = "wi %s %s %d -" % (ty, f, v)
+                if op not in seen:
+                    seen.add(op)
+                    ops.append(op)
+                if r == 10:
+                    ops.append("dwi %s %d -" % (ty, v))
+    return ops
+
+
+def int_write_small_exhaustive(rng, fs, tier="quick"):
+    """every u8/i8 value in every radix; every u16/i16 value in a few radices (all in thorough)"""
+    ops = []
+    rads = radices(fs)
+    for r in rads:
+        f = fmt_hex(pack(r))
+        for ty in ("u8", "i8"):
             lo, hi = int_range(ty)
-            for v in interesting_values(ty, r, rng, extra=4 * scale):
-                if lo <= v <= hi:
-                    ops.append("wi %s %s %d -" % (ty, f, v))
+            for v in range(lo, hi + 1):
+                ops.append("wi %s %s %d -" % (ty, f, v))
+    rads16 = rads if tier != "quick" else sorted(set(rads) & {3, 10, 16, 36})
+    for r in rads16:
+        f = fmt_hex(pack(r))
+        for ty in ("u16", "i16"):
+            lo, hi = int_range(ty)
+            for v in range(lo, hi + 1):
+                ops.append("wi %s %s %d -" % (ty, f, v))
+    if 10 in rads:
+        for ty in ("u8", "i8", "u16", "i16"):
+            lo, hi = int_range(ty)
+            for v in range(lo, hi + 1):
+                ops.append("dwi %s %d -" % (ty, v))
+    return ops
+
+
+def int_write_reqsign(rng, fs):
+    """required_mantissa_sign formats (only meaningful with the `format` feature)"""
+    ops = []
+    if not has_format(fs):
+        return ops
+    for r in (10, 2, 7, 16, 36):
+        if r not in radices(fs):
+            continue
+        f = fmt_hex(pack(r, flags=0xC | (1 << 5)))
+        for ty in INT_TYPES:
+            lo, hi = int_range(ty)
+            for v in (0, 1, 5, hi, lo, hi // 3, rng.randint(lo, hi)):
+                ops.append("wi %s %s %d -" % (ty, f, v))
+                ops.append("wi %s %s %d %d" % (ty, f, v, 300))
+    return ops
+
+
+def int_write_shortbuf(rng, fs):
+    """buffers shorter than / equal to / one longer than the numeral (checked-slice panic paths)"""
+    ops = []
+    for r in radices(fs):
+        f = fmt_hex(pack(r))
+        for ty in INT_TYPES:
+            lo, hi = int_range(ty)
+            for v in (0, hi, lo, rng.randint(lo, hi), rng.randint(lo, hi) >> rng.randint(0, INT_TYPES[ty][0] - 1)):
+                n = len(to_radix(abs(v), r)) + (1 if v < 0 else 0)
+                for bl in sorted({0, 1, max(n - 1, 0), n, n + 1}):
+                    ops.append("wi %s %s %d %d" % (ty, f, v, bl))
                     if r == 10:
-                        ops.append("dwi %s %d -" % (ty, v))
+                        ops.append("dwi %s %d %d" % (ty, v, bl))
     return ops
 
 
